@@ -139,8 +139,9 @@ fn check_frame_retrieval(what: &str, obj: &FileObj, frags: &[Vec<u8>], frame_fra
     }
 }
 
-fn wrap(value: Value<dicom_object::InMemDicomObject>, frames: usize, ts: &str) -> FileObj {
-    let im = Img { rows: 1, cols: 1, samples: 1, bits_alloc: 8, bits_stored: 8, signed: false, frames: frames as u32, data: vec![], frames_attr: true, mono1: false };
+/// `frames_attr == false` (single-frame objects only): no Number of Frames attribute, as in single-frame IODs
+fn wrap(value: Value<dicom_object::InMemDicomObject>, frames: usize, ts: &str, frames_attr: bool) -> FileObj {
+    let im = Img { rows: 1, cols: 1, samples: 1, bits_alloc: 8, bits_stored: 8, signed: false, frames: frames as u32, data: vec![], frames_attr: frames_attr || frames != 1, mono1: false };
     let mut o = img::base_object(&im);
     o.put(DataElement::new(tags::PIXEL_DATA, VR::OB, value));
     img::with_meta(o, ts)
@@ -240,7 +241,11 @@ fn check_helper(c: &HelperCase, obs: &mut Obs) {
     if obs.failed() || big {
         return;
     }
-    let obj = wrap(Value::PixelSequence(seq.clone()), nf, ENCAPSULATED_UNCOMPRESSED);
+    let with_attr = c.fill_seed & 1 == 0;
+    if nf == 1 && !with_attr {
+        obs.class("single-frame-without-Number-of-Frames");
+    }
+    let obj = wrap(Value::PixelSequence(seq.clone()), nf, ENCAPSULATED_UNCOMPRESSED, with_attr);
     check_frame_retrieval(what, &obj, &frags, &frame_frags, obs);
     check_written(what, &obj, &frame_frags, obs);
 }
@@ -289,7 +294,11 @@ fn check_synth(c: &SynthCase, obs: &mut Obs) {
     if obs.nontrivial {
         obs.class("several-frames-several-fragments");
     }
-    let built = wrap(Value::PixelSequence(PixelFragmentSequence::new(bot, frags.clone())), c.frames.len(), "1.2.840.10008.1.2.4.50");
+    let with_attr = c.frames.first().and_then(|f| f.first()).map(|l| l & 1 == 0).unwrap_or(true);
+    if c.frames.len() == 1 && !with_attr {
+        obs.class("single-frame-without-Number-of-Frames");
+    }
+    let built = wrap(Value::PixelSequence(PixelFragmentSequence::new(bot, frags.clone())), c.frames.len(), "1.2.840.10008.1.2.4.50", with_attr);
     let obj = if c.via_file {
         match img::through_file(&built) {
             Ok(o) => o,
